@@ -72,6 +72,33 @@ type MJWS struct{ S string }
 
 func (m MJWS) MarshalJSON() ([]byte, error) { return []byte(" { \"mj\" : [ 7 ,\n\t12 ] } "), nil }
 
+// marshalers with value receivers on types whose interface data word is the value itself (a struct of one pointer, an array of
+// one pointer, a map): building the interface for the call has to load the word instead of taking its address
+type MTD struct{ P *string }
+
+func (m MTD) MarshalText() ([]byte, error) { return []byte("mt:" + *m.P), nil }
+
+type MJD struct{ P *string }
+
+func (m MJD) MarshalJSON() ([]byte, error) { return []byte(`{"mj":` + rawQuote(*m.P) + `}`), nil }
+
+type MTA [1]*string
+
+func (m MTA) MarshalText() ([]byte, error) { return []byte("mt:" + *m[0]), nil }
+
+type MTM map[string]string
+
+func (m MTM) MarshalText() ([]byte, error) { return []byte("mt:" + m["s"]), nil }
+
+func init() {
+	zooTypes["mtd"], zooTypes["mjd"], zooTypes["mta"], zooTypes["mtm"] = reflect.TypeOf(MTD{}), reflect.TypeOf(MJD{}), reflect.TypeOf(MTA{}), reflect.TypeOf(MTM{})
+	str := func(v map[string]interface{}) *string { s := strLit[sstr(v["c"])][1]; return &s }
+	zooBuild["mtd"] = func(rt reflect.Type, v map[string]interface{}) reflect.Value { return reflect.ValueOf(MTD{str(v)}) }
+	zooBuild["mjd"] = func(rt reflect.Type, v map[string]interface{}) reflect.Value { return reflect.ValueOf(MJD{str(v)}) }
+	zooBuild["mta"] = func(rt reflect.Type, v map[string]interface{}) reflect.Value { return reflect.ValueOf(MTA{str(v)}) }
+	zooBuild["mtm"] = func(rt reflect.Type, v map[string]interface{}) reflect.Value { return reflect.ValueOf(MTM{"s": *str(v)}) }
+}
+
 func init() {
 	for k, t := range map[string]reflect.Type{"mjv": reflect.TypeOf(MJV{}), "mjp": reflect.TypeOf(MJP{}), "mtv": reflect.TypeOf(MTV{}),
 		"mtp": reflect.TypeOf(MTP{}), "mtn": reflect.TypeOf(MTN{}), "mje": reflect.TypeOf(MJE{}), "mjbad": reflect.TypeOf(MJBad{}), "mjws": reflect.TypeOf(MJWS{})} {
@@ -653,7 +680,7 @@ func emitFeatures(t, v map[string]interface{}, top string, o map[string]interfac
 	if f["tag_omit"] || f["tag_omitstr"] {
 		f["tag_omitempty"] = true
 	}
-	if f["mtv"] || f["mtp"] {
+	if f["mtv"] || f["mtp"] || f["mtd"] || f["mta"] || f["mtm"] {
 		f["text_marshaler"] = true
 	}
 	return f
@@ -1044,7 +1071,7 @@ func emitMain(args []string) int {
 			}
 		}
 	}()
-	err := workpool.Run(workpool.Options{Kind: "emit", Workers: *workers, Batch: 128, Env: env, CaseTimeout: 2 * time.Second,
+	err := workpool.Run(workpool.Options{Kind: "emit", Workers: *workers, Batch: batchFor(*only), Env: env, CaseTimeout: 2 * time.Second,
 		OnResult: func(cl, rl []byte) {
 			var r emitRes
 			if json.Unmarshal(rl, &r) != nil {
